@@ -33,13 +33,14 @@ Qed.
 Definition router_of (r : router) (opts : list gopt) : router :=
   mkRouter (last_sel g_sel_redirect opts (g_redirect r)) (last_sel g_sel_ignore opts (g_ignore r))
            (last_sel g_sel_resolver opts (g_clientip r)) (last_sel g_sel_nomethod opts (g_noMethod r))
-           (last_sel g_sel_autooptions opts (g_autoOptions r)) (sum_map g_nmws opts + g_mws r).
+           (last_sel g_sel_autooptions opts (g_autoOptions r)) (sum_map g_nmws opts + g_mws r)
+           (last_sel g_sel_maxparams opts (g_maxParams r)).
 
 Lemma apply_glob_spec r o :
   apply_glob r o = if g_valid o then Some (router_of r [o]) else None.
 Proof.
-  destruct r as [rd ig ci nm ao mw]. unfold router_of.
-  destruct o as [[|]|[|]|[i|]|ms|ms|[|]|[|]|[|]|b|b|]; cbn -[Nat.add]; try reflexivity.
+  destruct r as [rd ig ci nm ao mw mx]. unfold router_of.
+  destruct o as [[|]|[|]|[i|]|ms|sc ms|[|]|[|]|[|]|b|b| |n]; cbn -[Nat.add]; try reflexivity.
   all: try (rewrite add_mws_spec; destruct (all_true ms); cbn -[Nat.add]; [|reflexivity]; do 2 f_equal; lia).
 Qed.
 
@@ -59,8 +60,8 @@ Qed.
 Lemma apply_glob_exclusive r o r' :
   g_redirect r && g_ignore r = false -> apply_glob r o = Some r' -> g_redirect r' && g_ignore r' = false.
 Proof.
-  destruct r as [rd ig ci nm ao mw]. intros Hex Ha.
-  destruct o as [[|]|[|]|[i|]|ms|ms|[|]|[|]|[|]|b|b|]; cbn in *;
+  destruct r as [rd ig ci nm ao mw mx]. intros Hex Ha.
+  destruct o as [[|]|[|]|[i|]|ms|sc ms|[|]|[|]|[|]|b|b| |n]; cbn in *;
     try (inversion Ha; subst; cbn; auto; fail);
     try (destruct (add_mws mw ms); inversion Ha; subst; cbn; auto; fail); try discriminate.
   - inversion Ha; subst; cbn. destruct rd; auto.
@@ -209,6 +210,25 @@ Proof.
 Qed.
 
 (* ---------- NewRoute ---------- *)
+(* well-formed and within the router's wildcard limit *)
+Definition accepts (r : router) (p : bytes) : option (nat * nat) :=
+  match parse_lite p with
+  | Some (n, e) => if N.ltb (g_maxParams r) (N.of_nat n) then None else Some (n, e)
+  | None => None
+  end.
+
+Lemma accepts_parse r p n e : accepts r p = Some (n, e) -> parse_lite p = Some (n, e).
+Proof. unfold accepts. destruct (parse_lite p) as [[n' e']|]; [|discriminate]. destruct (N.ltb _ _); congruence. Qed.
+
+Lemma accepts_valid g p :
+  valid_pattern g p = match accepts (router_of router0 g) p with Some _ => true | None => false end.
+Proof.
+  unfold valid_pattern, accepts. destruct (parse_lite p) as [[n e]|] eqn:Hp; [|reflexivity].
+  destruct (parse_lite_spec _ _ _ Hp) as (-> & _).
+  change (g_maxParams (router_of router0 g)) with (max_params g).
+  rewrite N.leb_antisym. destruct (N.ltb _ _); reflexivity.
+Qed.
+
 Definition base_route (r : router) (p : bytes) (n e : nat) (h : bool) : route :=
   mkRoute p e n (g_redirect r) (g_ignore r) (g_clientip r) [] (g_mws r) h.
 
@@ -216,17 +236,18 @@ Lemma new_route_spec chk r p h opts :
   match new_route chk r p h opts with
   | Panic => False
   | Err e =>
-      (e = ErrInvalidRoute /\ ((chk = true /\ h = false) \/ parse_lite p = None)) \/
-      (e = ErrInvalidConfig /\ (chk = false \/ h = true) /\ parse_lite p <> None /\ forallb r_valid opts = false)
+      (e = ErrInvalidRoute /\ ((chk = true /\ h = false) \/ accepts r p = None)) \/
+      (e = ErrInvalidConfig /\ (chk = false \/ h = true) /\ accepts r p <> None /\ forallb r_valid opts = false)
   | Ok rt =>
       (chk = false \/ h = true) /\ forallb r_valid opts = true /\
-      exists n e, parse_lite p = Some (n, e) /\ ropts_rel (base_route r p n e h) opts rt
+      exists n e, accepts r p = Some (n, e) /\ ropts_rel (base_route r p n e h) opts rt
   end.
 Proof.
-  unfold new_route. destruct (chk && negb h) eqn:Hc.
+  unfold new_route, accepts. destruct (chk && negb h) eqn:Hc.
   - left. split; auto. left. destruct chk, h; cbn in Hc; try discriminate; auto.
   - assert (Hch : chk = false \/ h = true) by (destruct chk, h; cbn in Hc; try discriminate; auto).
     destruct (parse_lite p) as [[n e]|] eqn:Hp; [|left; auto].
+    destruct (N.ltb (g_maxParams r) (N.of_nat n)); [left; auto|].
     fold (base_route r p n e h). pose proof (apply_ropts_spec opts (base_route r p n e h)) as Ho.
     destruct (apply_ropts (base_route r p n e h) opts) as [rt|].
     + destruct Ho as (Hv & Hrel). repeat split; auto. exists n, e. auto.
@@ -277,7 +298,7 @@ Qed.
 
 (* an operation the code as it is mishandles: NewRoute with a nil handler *)
 Definition nil_newroute (o : op) : bool :=
-  match o with OCreate VNewRoute _ false _ => true | _ => false end.
+  match o with OCreate (VNewRoute | VOnly) _ false _ => true | _ => false end.
 
 Lemma created_rel g r p n e opts rt key :
   r = router_of router0 g -> parse_lite p = Some (n, e) -> ropts_rel (base_route r p n e true) opts rt ->
@@ -301,45 +322,48 @@ Proof.
     unfold create. set (p := nth key pats []).
     pose proof (new_route_spec chk r p h opts) as Hn.
     pose proof (lookup_rel g _ _ key Htab) as Hl.
-    unfold valid_pattern.
+    rewrite (accepts_valid g p), <- Hr.
     destruct h; cbn [negb].
     + (* non-nil handler *)
       assert (Hcommon :
         match new_route chk r p true opts with
-        | Err e => (if match parse_lite p with Some _ => true | None => false end
+        | Err e => (if match accepts r p with Some _ => true | None => false end
                     then if forallb r_valid opts then False else e = ErrInvalidConfig else e = ErrInvalidRoute)
         | Panic => False
-        | Ok rt => match parse_lite p with Some _ => True | None => False end /\ forallb r_valid opts = true /\
+        | Ok rt => match accepts r p with Some _ => True | None => False end /\ forallb r_valid opts = true /\
                    rel1 g (key, rt) (key, mkSRoute p opts)
         end).
       { destruct (new_route chk r p true opts) as [rt|e|]; [| |contradiction].
         - destruct Hn as (_ & Hv & n & e & Hp & Hrel). rewrite Hp. split; [exact I|]. split; [assumption|].
-          eapply created_rel; eauto.
+          eapply created_rel; eauto using accepts_parse.
         - destruct Hn as [(-> & [(_ & Hf)|Hp])|(-> & _ & Hp & Hv)]; [discriminate|rewrite Hp; reflexivity|].
-          destruct (parse_lite p); [|congruence]. rewrite Hv. reflexivity. }
+          destruct (accepts r p); [|congruence]. rewrite Hv. reflexivity. }
       destruct v.
       * destruct (new_route chk r p true opts) as [rt|e|]; [| |contradiction].
-        -- destruct Hcommon as (Hp & Hv & Hrel). destruct (parse_lite p); [|contradiction]. cbn [negb]. rewrite Hv. cbn [negb].
+        -- destruct Hcommon as (Hp & Hv & Hrel). destruct (accepts r p); [|contradiction]. cbn [negb]. rewrite Hv. cbn [negb].
            destruct (lookup key tab) as [rt0|], (slookup key stab) as [srt0|]; try contradiction.
            ++ split; auto.
            ++ pose proof Hrel as (_ & Hsn & _). cbn [snd] in Hsn. rewrite Hsn. split; [constructor; auto|reflexivity].
-        -- destruct (parse_lite p); cbn [negb]; [|subst e; auto]. destruct (forallb r_valid opts); [contradiction|]. subst e. cbn [negb]. auto.
+        -- destruct (accepts r p); cbn [negb]; [|subst e; auto]. destruct (forallb r_valid opts); [contradiction|]. subst e. cbn [negb]. auto.
       * destruct (new_route chk r p true opts) as [rt|e|]; [| |contradiction].
-        -- destruct Hcommon as (Hp & Hv & Hrel). destruct (parse_lite p); [|contradiction]. cbn [negb]. rewrite Hv. cbn [negb].
+        -- destruct Hcommon as (Hp & Hv & Hrel). destruct (accepts r p); [|contradiction]. cbn [negb]. rewrite Hv. cbn [negb].
            destruct (lookup key tab) as [rt0|], (slookup key stab) as [srt0|]; try contradiction.
            ++ pose proof Hrel as (_ & Hsn & _). cbn [snd] in Hsn. rewrite Hsn. split; [apply replace_rel; auto|reflexivity].
            ++ split; auto.
-        -- destruct (parse_lite p); cbn [negb]; [|subst e; auto]. destruct (forallb r_valid opts); [contradiction|]. subst e. cbn [negb]. auto.
+        -- destruct (accepts r p); cbn [negb]; [|subst e; auto]. destruct (forallb r_valid opts); [contradiction|]. subst e. cbn [negb]. auto.
       * destruct (new_route chk r p true opts) as [rt|e|]; [| |contradiction].
-        -- destruct Hcommon as (Hp & Hv & Hrel). destruct (parse_lite p); [|contradiction]. cbn [negb]. rewrite Hv. cbn [negb].
+        -- destruct Hcommon as (Hp & Hv & Hrel). destruct (accepts r p); [|contradiction]. cbn [negb]. rewrite Hv. cbn [negb].
            destruct (lookup key tab) as [rt0|], (slookup key stab) as [srt0|]; try contradiction.
            ++ split; auto.
            ++ pose proof Hrel as (_ & Hsn & _). cbn [snd] in Hsn. rewrite Hsn. split; [constructor; auto|reflexivity].
-        -- destruct (parse_lite p); cbn [negb]; [|subst e; auto]. destruct (forallb r_valid opts); [contradiction|]. subst e. cbn [negb]. auto.
+        -- destruct (accepts r p); cbn [negb]; [|subst e; auto]. destruct (forallb r_valid opts); [contradiction|]. subst e. cbn [negb]. auto.
+      * (* NewRoute alone *)
+        destruct (new_route chk r p true opts) as [rt|e|]; [| |contradiction].
+        -- destruct Hcommon as (Hp & Hv & Hrel). destruct (accepts r p); [|contradiction]. cbn [negb]. rewrite Hv. cbn [negb].
+           pose proof Hrel as (_ & Hsn & _). cbn [snd] in Hsn. rewrite Hsn. split; auto.
+        -- destruct (accepts r p); cbn [negb]; [|subst e; auto]. destruct (forallb r_valid opts); [contradiction|]. subst e. cbn [negb]. auto.
     + (* nil handler *)
-      destruct v; auto.
-      destruct Hg as [->|Hf]; [|discriminate].
-      unfold new_route. cbn. auto.
+      destruct v; auto; (destruct Hg as [->|Hf]; [|discriminate]); unfold new_route; cbn; auto.
   - (* probe *)
     split; auto. pose proof (lookup_rel g _ _ key Htab) as Hl.
     destruct (lookup key tab) as [rt|], (slookup key stab) as [srt|]; try contradiction.
@@ -465,6 +489,7 @@ Proof.
   intros Hn. assert (Hex : g_redirect r && g_ignore r = false) by (eapply new_from_exclusive; [|exact Hn]; reflexivity).
   split; [assumption|]. intros chk p h opts rt Hr. unfold new_route in Hr.
   destruct (chk && negb h); [discriminate|]. destruct (parse_lite p) as [[n e]|]; [|discriminate].
+  destruct (N.ltb _ _); [discriminate|].
   destruct (apply_ropts _ opts) as [rt'|] eqn:Ha; [|discriminate]. inversion Hr; subst rt'.
   eapply apply_ropts_exclusive; [|exact Ha]. exact Hex.
 Qed.
@@ -485,7 +510,7 @@ Theorem hostname_path_pattern_l chk r p h opts rt :
 Proof.
   intros Hn. pose proof (new_route_spec chk r p h opts) as Hs. rewrite Hn in Hs.
   destruct Hs as (_ & _ & n & e & Hp & ((S1 & S2 & _) & _)). cbn in S1, S2.
-  destruct (parse_lite_spec _ _ _ Hp) as (_ & He). destruct (index_slash_split _ _ He) as (Hle & Hf & Hk).
+  destruct (parse_lite_spec _ _ _ (accepts_parse _ _ _ _ Hp)) as (_ & He). destruct (index_slash_split _ _ He) as (Hle & Hf & Hk).
   unfold hostname, path. rewrite S1, S2. apply Nat.leb_le in Hle. rewrite Hle.
   exists (firstn e p), (skipn e p). rewrite firstn_skipn, Hf, Hk. auto.
 Qed.
@@ -495,7 +520,7 @@ Theorem paramslen_counts_wildcards_l chk r p h opts rt :
 Proof.
   intros Hn. pose proof (new_route_spec chk r p h opts) as Hs. rewrite Hn in Hs.
   destruct Hs as (_ & _ & n & e & Hp & ((S1 & _ & S3 & _) & _)). cbn in S1, S3.
-  destruct (parse_lite_spec _ _ _ Hp) as (Hc & _). congruence.
+  destruct (parse_lite_spec _ _ _ (accepts_parse _ _ _ _ Hp)) as (Hc & _). congruence.
 Qed.
 
 Theorem clientip_selection_l chk r pats tab key rt p :
@@ -533,8 +558,8 @@ Qed.
 
 Theorem invalid_route_options_rejected_l chk r p h opts :
   new_route chk r p h opts <> Panic /\
-  (h = true -> parse_lite p <> None -> forallb r_valid opts = false -> new_route chk r p h opts = Err ErrInvalidConfig) /\
-  (h = true -> parse_lite p = None -> new_route chk r p h opts = Err ErrInvalidRoute).
+  (h = true -> accepts r p <> None -> forallb r_valid opts = false -> new_route chk r p h opts = Err ErrInvalidConfig) /\
+  (h = true -> accepts r p = None -> new_route chk r p h opts = Err ErrInvalidRoute).
 Proof.
   pose proof (new_route_spec chk r p h opts) as Hs.
   destruct (new_route chk r p h opts) as [rt|e|]; [| |contradiction].
@@ -545,8 +570,23 @@ Proof.
 Qed.
 
 Theorem nil_handler_rejected_handle_update_l chk r pats t v key opts :
-  v <> VNewRoute -> create chk r pats t v key false opts = (t, ObsErr (Some ErrInvalidRoute) None).
-Proof. intros Hv. destruct v; [reflexivity|reflexivity|contradiction]. Qed.
+  v = VHandle \/ v = VUpdate -> create chk r pats t v key false opts = (t, ObsErr (Some ErrInvalidRoute) None).
+Proof. intros [->| ->]; reflexivity. Qed.
+
+(* more wildcards than the limit: rejected; and an accepted pattern has at most that many *)
+Theorem too_many_params_rejected_l chk r p h opts :
+  (forall n e, parse_lite p = Some (n, e) -> N.lt (g_maxParams r) (N.of_nat (count_open p)) ->
+               new_route chk r p h opts = Err ErrInvalidRoute) /\
+  (forall rt, new_route chk r p h opts = Ok rt -> N.le (N.of_nat (rt_psLen rt)) (g_maxParams r)).
+Proof.
+  split.
+  - intros n e Hp Hlt. destruct (parse_lite_spec _ _ _ Hp) as (Hn & _). unfold new_route.
+    destruct (chk && negb h); [reflexivity|]. rewrite Hp. rewrite <- Hn in Hlt. apply N.ltb_lt in Hlt. rewrite Hlt. reflexivity.
+  - intros rt Hn. pose proof (new_route_spec chk r p h opts) as Hs. rewrite Hn in Hs.
+    destruct Hs as (_ & _ & n & e & Hp & ((_ & _ & S3 & _) & _)). cbn in S3. rewrite S3.
+    unfold accepts in Hp. destruct (parse_lite p) as [[n' e']|]; [|discriminate].
+    destruct (N.ltb (g_maxParams r) (N.of_nat n')) eqn:Hl; [discriminate|]. inversion Hp; subst. apply N.ltb_ge in Hl. assumption.
+Qed.
 
 Lemma spec_ops_no_panic g pats ops : forall t, ~ In ObsPanic (spec_ops g pats t ops).
 Proof.
@@ -554,7 +594,7 @@ Proof.
   destruct (spec_op g pats t o) as [t' b] eqn:Ho. intros [Hb|Hin]; [|eapply IH; eassumption].
   subst b. destruct o as [v key h opts|key p|key k|key|e key adj mw]; cbn [spec_op] in Ho.
   - destruct (negb h); [inversion Ho|].
-    destruct (negb (valid_pattern _)); [inversion Ho|]. destruct (negb (forallb r_valid opts)); [inversion Ho|].
+    destruct (negb (valid_pattern _ _)); [inversion Ho|]. destruct (negb (forallb r_valid opts)); [inversion Ho|].
     destruct v, (slookup key t); inversion Ho.
   - destruct (slookup key t); inversion Ho.
   - destruct (slookup key t); inversion Ho.
